@@ -229,6 +229,14 @@ impl Options {
 	}
 
 	pub fn load_and_validate_metadata(&self, create: bool) -> Result<Metadata> {
+		self.load_and_validate_metadata_in_version(create, None)
+	}
+
+	pub(crate) fn load_and_validate_metadata_in_version(
+		&self,
+		create: bool,
+		version: Option<u32>,
+	) -> Result<Metadata> {
 		let meta = Self::load_metadata(&self.path)?;
 
 		if let Some(meta) = meta {
@@ -255,8 +263,12 @@ impl Options {
 			Ok(meta)
 		} else if create {
 			let s: Salt = self.salt.unwrap_or_else(|| rand::thread_rng().gen());
-			self.write_metadata(&self.path, &s)?;
-			Ok(Metadata { version: CURRENT_VERSION, columns: self.columns.clone(), salt: s })
+			self.write_metadata_with_version(&self.path, &s, version)?;
+			Ok(Metadata {
+				version: version.unwrap_or(CURRENT_VERSION),
+				columns: self.columns.clone(),
+				salt: s,
+			})
 		} else {
 			Err(Error::DatabaseNotFound)
 		}
